@@ -110,9 +110,9 @@ def _gen_query(rng, backend, wire=None):
     """A query from the typed generator of the job engine (outside the hand-written pool). Its metadata
     declarations are dropped with some probability so that a later query *relies on the default typing*
     of a method an earlier query declared."""
-    from ..job import qgen
+    from ..job import qgen, qgen2
     import hashlib
-    q = qgen.generate(rng, backend)
+    q = qgen2.generate(rng, backend) if rng.random() < 0.5 else qgen.generate(rng, backend)
     md = list(q["md"])
     if md and rng.random() < 0.4:
         keep = [m for m in md if rng.random() < 0.5]
